@@ -78,7 +78,39 @@ def _curve_names():
     return ["secp256k1", "secp112r1", "secp112r2", "secp128r1", "secp128r2", "secp160k1", "secp160r1",
             "secp160r2", "secp192k1", "secp192r1", "secp224k1", "secp224r1", "secp256r1", "secp384r1",
             "secp521r1", "nistp192", "nistp224", "nistp256", "nistp384", "nistp521", "bpp160r1", "bpp192r1",
-            "bpp224r1", "bpp256r1", "bpp320r1", "bpp384r1", "bpp512r1"]
+            "bpp224r1", "bpp256r1", "bpp320r1", "bpp384r1", "bpp512r1"] + list(CUSTOM_CURVES)
+
+
+# Caller-defined curves that share the field (and the a = 0) of a curve the library has special arithmetic for: the j = 0
+# curves y^2 = x^3 + b over secp256k1's prime. Their group orders are the sextic twists' (computed once from the CM norm
+# equation t^2 + 3 v^2 = 4p and confirmed by multiplying points); G is cofactor * (first point from x = 1 upwards).
+_P_K1 = 2**256 - 2**32 - 977
+CUSTOM_CURVES = {
+    # name: (b, group order, cofactor)
+    "custom:secp256k1-field:b=2": (2, 0x1000000000000000000000000000000014551231950B75FC4402DA1712FC9B71F, 3**2 * 13**2 * 3319 * 22639),
+    "custom:secp256k1-field:b=3": (3, 0xFFFFFFFFFFFFFFFFFFFFFFFFFFFFFFFF4C43534BA6C5E3A57918113A87C50283, 109903 * 12977017 * 383229727),
+    "custom:secp256k1-field:b=7:generator-2G": (7, 0xFFFFFFFFFFFFFFFFFFFFFFFFFFFFFFFEBAAEDCE6AF48A03BBFD25E8CD0364141, 1),
+}
+
+
+def _custom_curve(name: str):
+    from btclib.curves.curve import Curve
+
+    b, order, h = CUSTOM_CURVES[name]
+    p = _P_K1
+    q = order // h
+    assert order % h == 0 and rec.is_prime(q)
+    x = 1
+    while True:
+        y2 = (x**3 + b) % p
+        y = pow(y2, (p + 1) // 4, p)
+        if y * y % p == y2:
+            G = rec.RefCurve(p, 0, b, (x, y), order, name).mul_nored(h * (2 if h == 1 else 1), (x, y))
+            if G is not None:
+                break
+        x += 1
+    assert rec.RefCurve(p, 0, b, G, q, name).mul_nored(q, G) is None
+    return Curve(p, 0, b, G, q, h, True)
 
 
 def finalize(m: dict, tier: str) -> list[str]:
@@ -95,7 +127,7 @@ def finalize(m: dict, tier: str) -> list[str]:
     else:
         out.append("btclib_secp256k1 bindings not installed: bindings arm unobserved")
     for k in ("toy:mult", "toy:double_mult", "toy:multi_mult:boscoster", "toy:multi_mult:wnaf", "toy:add_jac",
-              "big:mult", "big:multi_mult", "nt:mod_inv", "nt:mod_sqrt", "nt:p%8==5", "nt:p%8==1",
+              "big:mult", "big:multi_mult", "big:caller-defined-curve-over-a-special-cased-field", "nt:mod_inv", "nt:mod_sqrt", "nt:p%8==5", "nt:p%8==1",
               "construct:malformed", "sec:roundtrip", "sec:malformed", "toy:add_jac:V==0"):
         if not c.get(k):
             out.append(f"input class {k} never evaluated")
@@ -475,10 +507,12 @@ def shard_big(ctx: Ctx) -> None:
     quick = ctx.tier == "quick"
     ossl = _openssl_curves()
     for name in ctx.params["curves"]:
-        ec = CURVES[name]
+        ec = _custom_curve(name) if name in CUSTOM_CURVES else CURVES[name]
         rc = rec.RefCurve(ec.p, ec._a, ec._b, tuple(ec.G), ec.n, name)
         n = ec.n
         k1 = name == "secp256k1"
+        if name in CUSTOM_CURVES:
+            ctx.classes["big:caller-defined-curve-over-a-special-cased-field"] += 1
         # reference points with known discrete logs: pool[k] = k*G by the reference
         pool_n = (10 if quick else 24) if ec.p.bit_length() <= 256 else (5 if quick else 10)
         logs = [1, 2, n - 1] + [rng.randrange(3, n) for _ in range(pool_n - 3)]
